@@ -3,6 +3,7 @@ from specs.common import run, ASSUME_COMMON
 SPEC = {
     "runs": [
         run("e3-serial", "c11_lockfree", "asan", 20000, 5000000, sq=8, st=16, need_lib=False,
+            tier_params={"thorough": {"enum_every": 100000}},
             timeout={"quick": 1500, "thorough": 10800}),
         run("e2-free", "c11_lockfree", "tsan", 200, 20000, sq=4, st=16, need_lib=True,
             timeout={"quick": 1500, "thorough": 10800}),
@@ -11,10 +12,12 @@ SPEC = {
         "quick": {"queue_schedules": 10000, "lock_schedules": 2000, "schedules_with_genuine_cas_failure": 500,
                   "schedules_with_injected_cas_failure": 1000, "legitimate_false_adds": 1000,
                   "schedules_reaching_full": 1000, "queue_free_histories": 100, "lock_free_histories": 30,
-                  "lock_try_lock_failures": 100},
+                  "lock_try_lock_failures": 100,
+                  "enum_configs_exhausted": 8, "enum_runs": 3000},
         "thorough": {"queue_schedules": 2000000, "lock_schedules": 500000, "schedules_with_genuine_cas_failure": 100000,
                      "schedules_with_injected_cas_failure": 200000, "legitimate_false_adds": 200000,
-                     "queue_free_histories": 10000, "lock_free_histories": 3000},
+                     "queue_free_histories": 10000, "lock_free_histories": 3000,
+                     "enum_configs_exhausted": 30, "enum_runs": 100000},
     },
     "engine": "E3 serialised schedule",
     "engines_used": ["E3 serialised schedule", "E2 history"],
@@ -34,7 +37,11 @@ SPEC = {
              "instance-counted elements each, one consumer using Consume(k<=size)/Peek with a taking callback; scheduler "
              "policy uniform or PCT depth 1..3, spurious weak-CAS rate in {0,1/8,1/2}. 1 of 5: SpinLockMutex with 2..3 threads "
              "x 1..4 lock/try_lock/unlock operations. Non-trivial = at least one context switch happened; distinct = hash of "
-             "the sequence of (chosen thread, operation kind) at every scheduling point."),
+             "the sequence of (chosen thread, operation kind) at every scheduling point. Every 2000th case (100000th in the "
+             "thorough tier) instead enumerates COMPLETELY, for one of 10 tiny configurations (capacity 1..3, 1..3 producers, "
+             "<= 4 adds), every schedule reachable by running threads to completion or to a voluntary yield plus at most 2 "
+             "(thorough: 3) preemptions at any step to any other live thread (counters enum_*)."),
+    "coverage_extra": {"exhaustive_subspaces": "bounded-preemption enumeration (preemption bound 2 quick / 3 thorough, sequentially consistent execution, no spurious CAS) of 10 tiny queue configurations; enum_configs_exhausted counts configurations whose bounded schedule space was enumerated completely in this run, enum_configs_capped those cut by the run budget; the top-level exhaustive flag stays false"},
     "assumptions": ASSUME_COMMON + [
         "a failed Add is legitimate iff (successful Adds started before it finished) - (elements taken by Consume calls that returned before it started) >= capacity; sound upper bound of the occupancy Add can have seen",
         "progress is logical: a schedule exceeding 200000 steps continues under fair round-robin for another 200000 before no-progress is reported (longest schedule on the unchanged header: a few hundred steps)",
